@@ -34,9 +34,21 @@ unsigned G_cb0;               /* ghost: close notifications before the call (bou
   && (G_txw_calls == 1 ==> (G_txw_p == WC_Q.w.p && G_txw_n == (int)WC_Q.w.n)) \
   && (G_tx_calls > 0 ==> (!G_tx_is_sendto && G_tx_fd == s->fd && G_tx_flags == MSG_NOSIGNAL)) \
   && WC_CLOSE_PRE && G_closeCb_calls == G_cb0 )
-#define WC_CLOSE_TARGETS s->closed, self->_peerIndex, self->_sessions.has, self->_sessions.val, self->_tags, self->_atomicStats.closed, self->_atomicStats.sessionsCurrent, \
+#define WC_CLOSE_TARGETS s->closed, self->_peerIndex, self->_sessions.has, self->_tags, self->_atomicStats.closed, self->_atomicStats.sessionsCurrent, \
   self->_cbMutex.held, self->_sessionRwMutex.held, G.cl
 #define IORA_LOOP_UdpEngine_writeClient_1 IORA_LC( \
   __CPROVER_assigns(s->wq.lo, s->wq.other, s->wantWrite, s->lastWriteProgress, self->_atomicStats.bytesOut, TX_GHOSTS, EPOLL_GHOSTS, WC_CLOSE_TARGETS) \
   __CPROVER_loop_invariant(WC_INV) \
   __CPROVER_decreases(s->wq.hi - s->wq.lo))
+
+/* sendDo: ghost mirror of the pre-state, bound by ONE requires clause of the contract (SD_BIND).  Used instead of __CPROVER_old: every textual
+ * __CPROVER_old is a tracked local object under DFCC, and the solver cost grows steeply with the number of objects (--object-bits), measured. */
+struct { bool s_has, s_closed; Role s_role; int s_fd; socklen_t s_plen; uint8_t s_peer_gb; size_t cq_lo, cq_hi; const uint8_t *cq_w_p; size_t cq_w_n;
+         bool l_has; int l_fd; size_t lq_lo, lq_hi; const uint8_t *lq_w_p; size_t lq_w_n; socklen_t lq_w_tolen; uint8_t lq_w_to_gb;
+         const uint8_t *p; size_t n; unsigned cb_calls; bool cbset; } P0;
+#define SD_BIND ( P0.s_has == self->_sessions.has && P0.s_closed == self->_sessions.val->closed && P0.s_role == self->_sessions.val->role && P0.s_fd == self->_sessions.val->fd \
+  && P0.s_plen == self->_sessions.val->plen && P0.s_peer_gb == self->_sessions.val->peer.b[GB] && P0.cq_lo == self->_sessions.val->wq.lo && P0.cq_hi == self->_sessions.val->wq.hi \
+  && P0.cq_w_p == self->_sessions.val->wq.w.p && P0.cq_w_n == self->_sessions.val->wq.w.n && P0.l_has == self->_listeners.has && P0.l_fd == self->_listeners.val->fd \
+  && P0.lq_lo == self->_listeners.val->wq.lo && P0.lq_hi == self->_listeners.val->wq.hi && P0.lq_w_p == self->_listeners.val->wq.w.payload.p && P0.lq_w_n == self->_listeners.val->wq.w.payload.n \
+  && P0.lq_w_tolen == self->_listeners.val->wq.w.toLen && P0.lq_w_to_gb == self->_listeners.val->wq.w.to.b[GB] && P0.p == sr->payload.p && P0.n == sr->payload.n \
+  && P0.cb_calls == G_closeCb_calls && P0.cbset == self->_cbs.onClose.set )
